@@ -754,6 +754,30 @@ for it in range(num_det):
     clo_cases.append(cpair(cfloat(start), cfloat(step), cZ(num), cfloat(t), cZ(ci)))
     clo_meta.append({"fn": "Time.closest_index", "time": [start, step, num], "t": t, "impl": ci})
 
+# many timetraces (a 33- or 47-element FMC has more than 1024): every one of them is examined
+for nel_ in ((33,) if Q else (33, 47, 64)):
+    nt_ = nel_ * nel_
+    start, step, num = 0.0, 0.5, 24
+    time = Time(start, step, num)
+    st = np.array(time.samples, float)
+    tt = rng.integers(-9, 10, size=(nt_, num)).astype(float)
+    peak_ = rng.integers(0, num, size=nt_)
+    tt[np.arange(nt_), peak_] = 50.0 * rng.choice([-1.0, 1.0], size=nt_)
+    txl, rxl = arim.ut.fmc(nel_)
+    pr_ = arim.Probe.make_matrix_probe(nel_, 1e-3, 1, np.nan, 1e6)
+    frame = arim.Frame(tt, time, txl, rxl, pr_, EXAM)
+    res = np.asarray(reg.detect_surface_from_extrema(frame), float)
+    evaluations += 1
+    chk.count(C_detect=f"{nt_} timetraces")
+    want_ = st[peak_]
+    if res.shape != want_.shape or not np.array_equal(res, want_):
+        bad_ = np.nonzero(res != want_)[0] if res.shape == want_.shape else np.array([0])
+        chk.violation("C:detect-many", f"detect_surface_from_extrema on a frame of {nt_} timetraces: {len(bad_)} detected times are not "
+                      "the time of the largest |sample|",
+                      {"fn": "detect_surface_from_extrema", "numtimetraces": nt_, "time": [start, step, num], "first_bad_timetrace": int(bad_[0]),
+                       "impl": float(res[bad_[0]]) if res.shape == want_.shape else None, "spec": float(want_[bad_[0]]),
+                       "how": "integer noise in [-9, 9] and one +-50 sample per timetrace at a random index; seed and tier replay it"})
+
 # complex (analytic-signal) timetraces: |.| is the modulus; Gaussian integers so that ties are exact
 # (3+4j, 5, -5j, 4-3j ...).  Specification only (the model is stated for real samples).
 for it in range(60 if Q else 600):
